@@ -1,4 +1,4 @@
-PROFILE = {"weights": [2, 2, 2, 2, 1, 2, 4, 1, 0, 0], "act": {"tick": 10, "connect": 4, "feed": 10, "peer_close": 0.6, "peer_reset": 0.4, "connect_result": 6, "submit": 2}, "stop": 2.5}
+PROFILE = {"weights": [2, 2, 2, 2, 1, 2, 4, 1, 0, 0], "act": {"tick": 10, "connect": 4, "feed": 10, "peer_close": 0.6, "peer_reset": 0.4, "connect_result": 6, "submit": 2, "stall": 0.8}, "stop": 2.5}
 ASSUME = ["'ready peer' = capabilities exchange succeeded, not ended by DPR/DPA/close, and reported READY / READY_WAITING_DWA by the node when stop() is called",
           "stop() returning is judged with wakeup + 1 (I/O thread join) + 2 (statistics thread join) + 1 s of slack after nothing is left to wait for; connection workers poll with 5 s timeouts and are judged 6 s after stop() returned",
           "at the atomic grain pending output is flushed within the step in which the DPA arrives; races between the stopping thread, the I/O loop and the connection workers are explored separately (schedule exploration)"]
@@ -11,7 +11,7 @@ def plans(tier):
     if th:
         mc.append(dict(cfg="C", depth=8, maxtime=8, alpha=["cerok", "ceaok", "dpa", "dwr", "stop", "stopf"], pairs=False, faults=False, maxconn=3, timeout=2400))
     sim = [dict(cfg="A", depth=22, maxtime=16, alpha=["cerok", "dpa", "dwr", "dwrdpa", "req1", "stop", "stopf"], num=400 if th else 60, maxconn=3, faults=True, pairs=False),
-           dict(cfg="C", depth=22, maxtime=16, alpha=["cerok", "ceaok", "dpa", "dwa", "req1", "stop", "stopf"], num=400 if th else 60, maxconn=4, faults=True, pairs=False)]
+           dict(cfg="C", depth=22, maxtime=16, alpha=["cerok", "ceaok", "dpa", "dpr", "dwa", "req1", "stall", "stop", "stopf"], num=400 if th else 60, maxconn=4, faults=True, pairs=False)]
     return mc, sim
 
 
@@ -19,4 +19,22 @@ def enum_plans(tier):
     th = tier == "thorough"
     return [dict(cfg="A", depth=9 if th else 7, maxtime=9 if th else 7, alpha=["cerok", "dpa", "stop"], maxconn=2 if th else 1),
             dict(cfg="A", depth=7 if th else 5, maxtime=5 if th else 3, alpha=["cerok", "dwrdpa", "stop"], maxconn=1),
-            dict(cfg="B", depth=8 if th else 6, maxtime=8 if th else 6, alpha=["ceaok", "dpa", "stopf", "stop"], maxconn=1)]
+            dict(cfg="B", depth=8 if th else 6, maxtime=8 if th else 6, alpha=["ceaok", "dpa", "stopf", "stop"], maxconn=1),
+            # after a ready connection and stop(): the peer stops reading, sends its own DPR (crossing the node's), a watchdog request, its DPA
+            dict(cfg="A", depth=6 if th else 5, maxtime=4 if th else 3, alpha=["stall", "dpr", "dwr", "dpa"], maxconn=1, prefix=stopping_prefix()),
+            # persistent peers: reconnect deadlines inside the shutdown window (the first peer's exchange is over early, the second answers late)
+            dict(cfg="C", depth=7 if th else 6, maxtime=5 if th else 4, alpha=["dpa"], faults=False, maxconn=3, prefix=two_peers_stopping_prefix())]
+
+
+def stopping_prefix():
+    from .. import nodetrace as nt
+    return [{"a": "connect"}, {"a": "feed", "c": 1, "ms": [nt.M("CE", True, 1, 1, oh="p1.r1", auth=[4])]}, {"a": "stop", "force": False, "wait": 8}]
+
+
+def two_peers_stopping_prefix():
+    """cfg C: p1 persistent (reconnect after 1 s) is connected outbound, p2 inbound; both ready; then stop()"""
+    from .. import nodetrace as nt
+    return [{"a": "connect_result", "c": 1, "err": 0},
+            {"a": "feed", "c": 1, "ms": [nt.M("CE", False, 2001, 1001, oh="p1.r1", rc=2001, auth=[4])]},
+            {"a": "connect"}, {"a": "feed", "c": 2, "ms": [nt.M("CE", True, 1, 1, oh="p2.r1", auth=[4])]},
+            {"a": "stop", "force": False, "wait": 8}]
